@@ -135,6 +135,13 @@ theorem canceled_drained_is_final_crash (c : Cfg) (ops : List Op) (hn : NoNested
     (hc : (run c ops).canceled = true) (hq : (run c ops).queue = []) : (run c ops).wfStatus.isComplete = true :=
   Stab.Engine.canceled_drained_is_final_crash c ops hn hc hq
 
+/-- **... for every operation list of the engine model, without exception**: also when a second worker delivers messages
+    while a task executes (`Op.nested`: the RunTask's result commit is computed from the state AFTER those deliveries).
+    No hypothesis on the workflow, none on the schedule. -/
+theorem canceled_drained_is_final_always (c : Cfg) (ops : List Op)
+    (hc : (run c ops).canceled = true) (hq : (run c ops).queue = []) : (run c ops).wfStatus.isComplete = true :=
+  Stab.Engine.canceled_drained_is_final_always c ops hc hq
+
 -- non-vacuity: a canceled state exists and is reached by an actual run of a one-stage workflow
 def demoStage : StageCfg :=
   { reqs := [], join := JoinType.and, threshold := 0, cont := false, failp := true, enabled := none,
@@ -164,5 +171,14 @@ example : NoNested crashOps ∧ (run demoCfg crashOps).canceled = true ∧ (run 
   intro op hop id inner
   simp only [crashOps, List.mem_cons, List.mem_nil_iff, or_false] at hop
   rcases hop with rfl | rfl | rfl | rfl | rfl | rfl | rfl | rfl | rfl | rfl | rfl | rfl <;> simp
+
+-- ... and of `canceled_drained_is_final_always` by a run in which the cancel is accepted by a second worker WHILE the task
+-- executes (the task's result commit lands after the fan-out), then the queue drains
+def nestedOps : List Op :=
+  [Op.deliver 1, Op.deliver 2, Op.deliver 3, Op.cancel, Op.nested 4 [5], Op.deliver 6, Op.deliver 7, Op.deliver 8, Op.deliver 9,
+   Op.deliver 10, Op.deliver 11]
+
+example : (run demoCfg nestedOps).canceled = true ∧ (run demoCfg nestedOps).queue = [] ∧
+    (run demoCfg nestedOps).ledger.length = 1 ∧ (run demoCfg (nestedOps.take 5)).wfStatus = .running := by decide
 
 end Stab.Props.C17
